@@ -18,6 +18,66 @@ import (
 	"strings"
 )
 
+// otherSpelling is the path of a column of the query's own table that was
+// named with the table's own name (users.id FROM users) or without the
+// table's alias (id FROM users u); row is a row of that table
+func otherSpelling(query *Query, row Map, name string) (string, bool) {
+	if query == nil {
+		return "", false
+	}
+	switch {
+	case len(query.table) > 0 && strings.HasPrefix(name, query.table+"."):
+		if _, shadows := row[strings.SplitN(query.table, ".", 2)[0]]; !shadows {
+			return name[len(query.table)+1:], true
+		}
+	case len(query.alias) > 0:
+		if _, ok := row[query.alias].(Map); ok && len(row) <= 2 {
+			return query.alias + "." + name, true
+		}
+	}
+	return "", false
+}
+
+// columnOfRows reads a column of the rows a group or an aggregate covers (or
+// of one row), under either spelling of its name
+func columnOfRows(query *Query, data any, name string) (any, error) {
+	rs, err := ExecReader(data, name)
+	if err != nil {
+		return nil, err
+	}
+	var first Map
+	switch data := data.(type) {
+	case Map:
+		if rs != nil {
+			return rs, nil
+		}
+		first = data
+	case []any:
+		values, ok := rs.([]any)
+		if rs != nil && !ok {
+			return rs, nil
+		}
+		for _, value := range values {
+			if value != nil {
+				return rs, nil
+			}
+		}
+		for _, row := range data {
+			if row, ok := row.(Map); ok {
+				first = row
+				break
+			}
+		}
+	}
+	if first == nil {
+		return rs, nil
+	}
+	if other, ok := otherSpelling(query, first, name); ok {
+		return ExecReader(data, other)
+	}
+	return rs, nil
+}
+
 func ValueOf(query *Query, current Map, any any) (any, error) {
 	switch value := any.(type) {
 	case ColumnName:
